@@ -2,7 +2,7 @@
 (* Leg G for C05: documents = presentations of the case values in every style. *)
 EXTENDS JsonCodec, Json, IOUtils, SequencesExt, FiniteSetsExt
 CONSTANT Tier
-DocVals == {c \in OneField(FALSE) : TRUE} \cup Nested1 \cup Full(FALSE)
+DocVals == {c \in OneField(FALSE) : TRUE} \cup UntypedOne(FALSE) \cup AllTypeNames \cup Nested1 \cup Full(FALSE)
             \cup (IF Tier = "thorough" THEN Pairwise({"Object", "Actor", "OrderedCollectionPage"}, FALSE) ELSE {})
 ModelVals == {c \in OneField(FALSE) : c.lab.g \in {"Object", "Actor", "Question", "Place", "Link", "OrderedCollectionPage"}} \cup Nested1
 Docs == {[lab |-> c.lab, doc |-> Pres(c.v, st)] : c \in DocVals, st \in Styles}
